@@ -1,10 +1,17 @@
 ------------------------------ MODULE MCWorld ------------------------------
 (* Model-checking wrapper for World: bounded histories, TLC-only operators. *)
-(* `hist` is a history variable (sequence of [call, out, cells, guards,     *)
-(* drops]) that exists only here; it is hidden from the fingerprint by      *)
-(* VIEW MCView, so every distinct (abstract state, last call, outcome,      *)
-(* depth) is explored once and carries ONE real behaviour leading to it.    *)
-(* Emit prints that behaviour as JSON for the spec -> implementation replay.*)
+(* `hist` is a history variable (one entry per call: call, outcome and the  *)
+(* raw state after it) that exists only here and is hidden from the         *)
+(* fingerprint by a VIEW:                                                   *)
+(*   MCView2 = abstract state + depth: every state reachable within         *)
+(*             MaxSteps calls once; the state invariants InvCxx and the     *)
+(*             action rules RuleCxx (evaluated by TLC on EVERY generated    *)
+(*             transition) are thereby checked for all histories <= bound;  *)
+(*   MCView  = additionally the last call and its outcome: every distinct   *)
+(*             (state, call, outcome, depth) is kept once and carries ONE   *)
+(*             real behaviour leading to it, which Emit prints as JSON      *)
+(*             (projected state after every call) for the spec -> impl      *)
+(*             replay.                                                      *)
 EXTENDS World, TLC, Json
 
 CONSTANTS MaxSteps, EmitFrom,  \* histories of length EmitFrom..MaxSteps are emitted
